@@ -303,7 +303,8 @@ def shard_file(progs: list[dict], attr_cases: list[tuple[list, list]], builtin_n
         ok_idx.append((i, nm, nf, wm, wf))
         if p.get("expect"):
             ex = "[" + "; ".join(f"({it(r)}, {it.lst(path)}, {O(sk, c)})" for r, path, c in p["expect"]) + "]"
-            bcases.append(f"({wf}, {ex})")
+            g0 = gmap(sk, (p.get("assembly") or {}).get("g0", []))
+            bcases.append(f"({wf}, {g0}, {ex})")
             bkeys.append(i)
         a = p.get("assembly")
         if a:
@@ -323,8 +324,8 @@ def shard_file(progs: list[dict], attr_cases: list[tuple[list, list]], builtin_n
     txt += "Definition aok (c : list (N * N) * list (N * N)) : bool := attrs_closed (fst c) (snd c).\n"
     # identity binding: the rendered chain of every schema class a program mentions reaches that very class,
     # whenever the renderings are injective (domain predicate evaluated here, in Coq)
-    txt += "Definition bcases : list (world * list expectation) :=\n  [" + ";\n   ".join(bcases) + "].\n"
-    txt += "Definition bok (c : world * list expectation) : bool := negb (inj_ok (snd c)) || binding_ok (fst c) (snd c).\n"
+    txt += "Definition bcases : list (world * gmap * list expectation) :=\n  [" + ";\n   ".join(bcases) + "].\n"
+    txt += "Definition bdom (c : world * gmap * list expectation) : bool := inj_ok (snd c) && roots_fresh (snd (fst c)) (snd c).\nDefinition bok (c : world * gmap * list expectation) : bool := negb (bdom c) || binding_ok (fst (fst c)) (snd c).\n"
     # namespace assembly: model (setdefault over the recorded imports) vs the function's real __globals__
     txt += "Definition ascases : list (gmap * list (name * N) * gmap) :=\n  [" + ";\n   ".join(ascases.keys()) + "].\n"
     txt += "Definition asok (c : gmap * list (name * N) * gmap) : bool := assembly_ok (fst (fst c)) (snd (fst c)) (snd c).\n"
@@ -333,10 +334,10 @@ def shard_file(progs: list[dict], attr_cases: list[tuple[list, list]], builtin_n
     lemma = ("Lemma shard_closed : bad_idx case_ok cases = [] /\\ bad_idx aok acases = [] /\\ bad_idx bok bcases = [] /\\ bad_idx asok ascases = [].\n"
              "Proof. split; [| split; [| split]]; vm_compute; reflexivity. Qed.\n"
              "Definition shard_programs_never_raise_NameError := shard_sound cases (proj1 shard_closed).\n"
-             "Eval vm_compute in (bad_idx (fun c : world * list expectation => inj_ok (snd c)) bcases).\n")
+             "Eval vm_compute in (bad_idx bdom bcases).\n")
     # diagnosis (compiled only when the lemma fails): which cases are rejected
     diag = ("Eval vm_compute in (bad_idx case_ok cases).\nEval vm_compute in (bad_idx aok acases).\n"
-            "Eval vm_compute in (bad_idx bok bcases).\nEval vm_compute in (bad_idx (fun c : world * list expectation => inj_ok (snd c)) bcases).\n"
+            "Eval vm_compute in (bad_idx bok bcases).\nEval vm_compute in (bad_idx bdom bcases).\n"
             "Eval vm_compute in (bad_idx asok ascases).\n")
     info_extra = {"diag": txt + diag}
     txt = txt + lemma
